@@ -509,6 +509,27 @@ pub fn run(ctx: &mut Ctx) {
         };
         ctx.rep.count("family_grammar_streams");
         check_stream(ctx, &StreamCase { stream: &s, layouts: Some(&ls), limit }, &mut rng, &plan);
+        // ---- family D: a stray empty line at a request boundary (after a body, before a request line):
+        // whatever the verdict on it is, it must not depend on which read the CR LF arrives in
+        if ls.len() >= 2 || i % 3 == 0 {
+            let j = rng.below(ls.len());
+            let mut v = s.clone();
+            let stray: &[u8] = if rng.chance(1, 4) { b"\r\n\r\n" } else { b"\r\n" };
+            v.splice(ls[j].end..ls[j].end, stray.iter().copied());
+            let plan_d = Plan {
+                all_single_cuts: true,
+                single_cut_stride: 1,
+                pairs: if quick { 16 } else { 200 },
+                const_sizes: vec![1, 2, 3, 1023, 1024],
+                random_multi: if quick { 4 } else { 20 },
+                gaps: vec![Gap::None, Gap::WouldBlock, Gap::Interrupted],
+            };
+            ctx.rep.count("family_stray_empty_line_at_request_boundary");
+            if ls[j].end > ls[j].hdr_end {
+                ctx.rep.count("stray_empty_line_after_a_body");
+            }
+            check_stream(ctx, &StreamCase { stream: &v, layouts: None, limit }, &mut rng, &plan_d);
+        }
         // ---- family C: truncations / corruptions of a subset
         let n_mangled = if quick { 1 } else { 3 };
         if i % 2 == 0 {
